@@ -343,12 +343,12 @@ pub fn subs() -> Vec<Sub> {
         en("all-i32", 1 << 32, ex_i32, "all i32 (thorough)", true),
         en("all-f32", 1 << 32, ex_f32, "all f32 bit patterns (thorough)", true),
         Sub { prop: "C03", name: "wide-methods", rule: "u64/i64/int/u32/i32/tag/array/map heads over boundary-dense 64-bit arguments; bytes/str with lengths on every head-width boundary; f64; distinct by (method, output prefix, length)",
-              kind: Kind::Random { quick: 200_000, thorough: 5_000_000, tape: 64, f: wide_methods } },
+              kind: Kind::Random { quick: 1_000_000, thorough: 5_000_000, tape: 64, f: wide_methods } },
         Sub { prop: "C03", name: "values", rule: "values of ~120 registry types: output is one well-formed item, in preferred definite form, equal to the reference encoding of the model value (multiset comparison for hash collections), identical when encoded twice; non-trivial = output >= 2 bytes",
-              kind: Kind::Random { quick: 240_000, thorough: 12_000_000, tape: 1024, f: values } },
+              kind: Kind::Random { quick: 1_200_000, thorough: 12_000_000, tape: 1024, f: values } },
         Sub { prop: "C03", name: "iter-encoders", rule: "ArrayIter/MapIter with exact and inexact size_hint vs reference (definite resp. indefinite)",
-              kind: Kind::Random { quick: 20_000, thorough: 400_000, tape: 1300, f: iter_encoders } },
+              kind: Kind::Random { quick: 100_000, thorough: 400_000, tape: 1300, f: iter_encoders } },
         Sub { prop: "C03", name: "histories", rule: "generated item tree lowered to a balanced Encoder call sequence with a random choice among the methods able to express each node (u8/u16/../int/encode, array(n) vs begin_array..end, chunked begin_bytes); output == reference serialisation with the implied framing; non-trivial = >= 2 calls",
-              kind: Kind::Random { quick: 100_000, thorough: 5_000_000, tape: 1024, f: histories } },
+              kind: Kind::Random { quick: 500_000, thorough: 5_000_000, tape: 1024, f: histories } },
     ]
 }
